@@ -247,6 +247,9 @@ impl World {
             malformed: Vec::new(),
         };
         for e in 0..2 {
+            // the random source yields the two reserved values first: the library must redraw
+            // (0.6/DDNet reserves ffffffff and 00000000, 0.7 only ffffffff)
+            w.cb[e].bad_draws = if mode.v7 { 1 } else { 2 };
             w.cb[e].token = if mode.v7 {
                 tok_bytes(if e == 0 { "C" } else { "S" }).unwrap()
             } else {
